@@ -24,6 +24,7 @@ import (
 	"sync"
 	"time"
 
+	"github.com/theQRL/go-qrllib/dilithium"
 	"github.com/theQRL/go-qrllib/simsched"
 	"github.com/theQRL/go-qrllib/xmss"
 
@@ -180,12 +181,34 @@ func fixturesFor(seed uint64) *Fix {
 
 // runOnce executes the episode under one plan. plan == nil with order != nil
 // means a sequential baseline: calls run alone to completion in that order.
+// makeDilRun creates the per-run shared Dilithium keys (warm episodes only:
+// a cold process makes no library call before its tasks start).
+func (f *Fix) makeDilRun() {
+	f.DilRun = nil
+	if len(f.Dil) == 0 {
+		return
+	}
+	for i := 4; i < 6; i++ {
+		d, err := dilithium.NewDilithiumFromSeed(f.Seeds[i])
+		if err != nil {
+			panic(err)
+		}
+		f.DilRun = append(f.DilRun, d)
+	}
+}
+
+// stepLimit bounds the yields of the next run (logical steps, not wall-clock):
+// a call that spins forever under some interleaving becomes a deterministic,
+// replayable result difference instead of a watchdog timeout.
+var stepLimit uint64 = 6e9
+
 func runOnce(f *Fix, ep *Episode, plan *simsched.Plan, nsites int, wantCounts bool) *runOut {
 	n := len(ep.Tasks)
 	priv := make([]*xmss.XMSS, n)
 	for t := 0; t < n && len(f.Priv) > 0; t++ { // no private keys in cold episodes
-		priv[t] = f.Priv[t].VerifClone()
+		priv[t] = f.Priv[t].VerifCloneKeeping(f.keep)
 	}
+	f.makeDilRun()
 	entropy.reset(ep.EntSeed)
 	out := &runOut{Results: make([][]string, n)}
 	for t := range out.Results {
@@ -193,6 +216,7 @@ func runOnce(f *Fix, ep *Episode, plan *simsched.Plan, nsites int, wantCounts bo
 	}
 	simsched.ResetMidCall()
 	simsched.Setup(n, nsites, plan, true, 256)
+	simsched.SetLimit(stepLimit)
 	running = true
 	var wg sync.WaitGroup
 	for t := 0; t < n; t++ {
@@ -383,6 +407,7 @@ func checkEpisode(seed uint64, e int, ep *Episode, st *Sites, K int, emit func(r
 			rep.Kinds.Add(c.K, 1)
 		}
 	}
+	f.makeDilRun()
 	shared0 := f.sharedDigest()
 	order := make([]int, n)
 	for i := range order {
@@ -446,6 +471,8 @@ func checkEpisode(seed uint64, e int, ep *Episode, st *Sites, K int, emit func(r
 	}
 	rep.SitesExec = exec
 	r := core.Derive(seed, "consim", "plans", e)
+	stepLimit = 16*A.Stats.Yields + 5e6
+	defer func() { stepLimit = 6e9 }()
 	for k := 0; k < K && len(rep.Violations) == 0; k++ {
 		p := genPlan(r, ep, st, A.Counts, A.Stats.Yields)
 		emit(2+k, p)
@@ -537,6 +564,7 @@ func replayRaw(path, sitesPath string) {
 	ep := rf.Episode
 	f := fixturesFor(ep.FixSeed)
 	n, ns := len(ep.Tasks), len(st.Sites)
+	f.makeDilRun()
 	shared0 := f.sharedDigest()
 	order := make([]int, n)
 	rev := make([]int, n)
@@ -554,6 +582,7 @@ func replayRaw(path, sitesPath string) {
 		vs = append(vs, Violation{Property: "C15", Oracle: "history-dependent-result", Where: w, Detail: d})
 	}
 	if rf.Plan != nil {
+		stepLimit = 16*A.Stats.Yields + 5e6
 		o := runOnce(f, ep, rf.Plan, ns, false)
 		if w, d := diffResults(A.Results, o.Results, ep); w != "" {
 			vs = append(vs, Violation{Property: "C15", Oracle: "result-differs-from-sequential", Where: w, Detail: d})
